@@ -58,6 +58,19 @@ def guess_sets(spec, N, dae):
     return gs
 
 
+def horizon_guess_sets(spec):
+    """guesses for the free horizon given through set_initial, before and after a time-expression guess"""
+    hs = []
+    if spec.T[0] == 'free':
+        hs.append((T, Fr(4)))
+    if spec.t0[0] == 'free':
+        hs.append((t0, Fr(3)))
+    if not hs:
+        return []
+    ex = [(X(0), t * 2 + 1), (U(0), 3 - t)] + ([(Vg('vc'), t * 3)] if any(v.name == 'vc' for v in spec.vars) else [])
+    return [hs + ex, ex + hs, hs[:1] + ex + hs[1:] + [(X(1), t * t)]]
+
+
 def instances(tier, seed):
     rng = random.Random(seed + 10)
     items = []
@@ -80,6 +93,29 @@ def instances(tier, seed):
                 for when in (('before', 'after') if (gi % 2 == 0 or tier != 'quick') else ('before',)):
                     add(spec=fam.with_horizon(base, h), guesses=gset, when=when,
                         cfg=Cfg(method, N=N, M=M, intg=intg or 'rk', grid=g, degree=degree, scheme=scheme))
+            n += 1
+    # vector-valued state: scalar guess (repeated), n x N and n x (N+1) arrays
+    for method, intg in (('MS', 'rk'), ('DC', None), ('SS', 'rk')):
+        for N, M in ((2, 2), (3, 1)):
+            base = copy.deepcopy(fam.ode_core()[2])
+            base.objective = [at_tf(X(0) * X(0)) + integral(U(0) * U(0))]
+            XG = E('xg', 0)
+            for gset in ([(XG, Fr(7, 2))], [(XG, [[Fr(10 + k) for k in range(N + 1)], [Fr(20 + k) for k in range(N + 1)]])],
+                         [(XG, [[Fr(30 + k) for k in range(N)], [Fr(40 + k) for k in range(N)]]), (X(2), 5)]):
+                for when in ('before', 'after'):
+                    add(spec=fam.with_horizon(base, H[(N + M) % len(H)]), guesses=gset, when=when,
+                        cfg=Cfg(method, N=N, M=M, intg=intg or 'rk', grid=grids[N % len(grids)], degree=2, scheme='radau'))
+    # guesses for free t0/T through set_initial, in every order relative to the time-expression guesses and to the transcription
+    Hfree = [h for h in H if h[0][0] == 'free' or h[1][0] == 'free']
+    n = 0
+    for method, intg, dae in (('MS', 'rk', False), ('DC', None, False), ('SS', 'rk', False), ('DC', None, True)):
+        for h in Hfree:
+            base = fam.with_horizon(base_model(dae), h)
+            for gi, gset in enumerate(horizon_guess_sets(base)):
+                whens = ('before', 'after', 'mixed') if (tier != 'quick' or (n + gi) % 2 == 0) else (('before', 'mixed') if gi == 0 else ('after',))
+                for when in whens:
+                    add(spec=base, guesses=gset, when=when,
+                        cfg=Cfg(method, N=[2, 3][n % 2], M=[1, 2][(n // 2) % 2], intg=intg or 'rk', grid=grids[n % len(grids)], degree=[2, 3][n % 2], scheme='radau'))
             n += 1
     return items
 
@@ -118,12 +154,14 @@ def run(item):
             spec.initial = list(guesses)
             I = Inst(spec, cfg, seed=item.get('seed', 0))
         else:
+            nbefore = 0 if when == 'after' else (len(guesses) + 1) // 2       # 'mixed': first half before the transcription, the rest after
+            spec_plain.initial = list(guesses[:nbefore])
             with quiet():
                 b = declare(spec_plain, cfg)
                 b.ocp.solver('ipopt')
                 b.ocp._transcribed
                 log.exprs.clear()
-                for tgt, val in guesses:
+                for tgt, val in guesses[nbefore:]:
                     b.ocp.set_initial(b.mx(tgt), guess_value(val, b))
             I = Inst(spec_plain, cfg, seed=item.get('seed', 0), built=b, solver=False)
     ch = Checker(I)
@@ -140,6 +178,16 @@ def run(item):
     tr0 = I.named.traj(o[4:4 + nn], I.fdom)
     final = {}
     for tgt, val in guesses:
+        if tgt.op == 'xg':
+            # guess for a whole vector-valued state: a scalar is repeated, an array has one row per element
+            from ..extract import state_groups
+            off = 0
+            for gi_, (r_, c_) in enumerate(state_groups(spec0)):
+                if gi_ == tgt.a[0]:
+                    for j_ in range(r_ * c_):
+                        final[repr(X(off + j_))] = (X(off + j_), val if isinstance(val, (int, Fr)) else [val[j_]])
+                off += r_ * c_
+            continue
         final[repr(tgt)] = (tgt, val)          # last call for a symbol wins
 
     def expect(val, tt, col, ncols_ok):
@@ -195,9 +243,10 @@ def run(item):
         for n_, col in enumerate(tr0.Zr):
             k = n_ // (M * cfg.degree)
             cmp('Zr[%d]' % n_, col[0], (expect(ent[1], tr0.tr[n_], k, None) if ent else 0.0))
-    for hname, kind in (('T', spec.T), ('t0', spec.t0)):
+    for hname, kind, leaf_ in (('T', spec.T, T), ('t0', spec.t0, t0)):
         if kind[0] == 'free':
-            cmp(hname, getattr(tr0, hname), float(kind[1]))
+            ent = final.get(repr(leaf_))
+            cmp(hname, getattr(tr0, hname), float(ent[1]) if ent else float(kind[1]))
     ch.proved.append('start vector read-back (%d entries, ground)' % checks)
     twins_ok = twins_bad = 0
     for tgt, val in final.values():
@@ -278,12 +327,12 @@ def run(item):
                 if gi_ not in matched:
                     V('guess-expression-times', repr(tgt), 'no expression evaluated at the starting point equals the time-expression guess %r at the node / interval-start times for all guessed t0,T' % (val,))
     # ---- (c) guesses never change the NLP ------------------------------------------------------------------
-    P0 = Inst(spec_plain, cfg, seed=item.get('seed', 0), like=I, bind=bind_positional())
+    P0 = Inst(copy.deepcopy(spec0), cfg, seed=item.get('seed', 0), like=I, bind=bind_positional())
     diffs, npairs = compare_nlps(ch, I, P0, 'with-guesses', 'without')
     for key, label, detail in diffs:
         V('nlp-changed:' + key, label, detail)
     # ---- (d) order relative to transcription ---------------------------------------------------------------
-    if when == 'after':
+    if when in ('after', 'mixed'):
         sb = copy.deepcopy(spec0)
         sb.initial = list(guesses)
         Bf = Inst(sb, cfg, seed=item.get('seed', 0))
